@@ -17,7 +17,7 @@
     the generated [env]); scipy's internal absolute defaults are exercised only by the
     metamorphic runs of tools/props/C07.py. *)
 From Coq Require Import Reals Lra List String ZArith.
-From WG Require Import Lib.NumpySem Lib.EosTemplate Lib.Units.
+From WG Require Import Lib.NumpySem Lib.EosTemplate Lib.Units Lib.UnitsEos.
 From GenC07 Require Import Thermo UnitsGen Sites.
 Local Open Scope R_scope.
 
@@ -205,3 +205,600 @@ Proof.
   cbn.
   repeat split; try reflexivity; apply grid_a_invariant; exact Hk.
 Qed.
+
+(* ------------------------------------------------------------------------------------ *)
+(** * Thermodynamics (thermodynamics.py): all piecewise EOS functions and setExtrapolate *)
+
+(** the same free-energy tables in units rescaled by lam *)
+Definition scale_env (lam : R) (e : env) : env :=
+  {| fHigh := sc4 lam (fHigh e); fLow := sc4 lam (fLow e);
+     dfHigh := sc3 lam (dfHigh e); ddfHigh := sc2 lam (ddfHigh e);
+     dfLow := sc3 lam (dfLow e); ddfLow := sc2 lam (ddfLow e);
+     tabMaxHigh := lam * tabMaxHigh e; tabMinHigh := lam * tabMinHigh e;
+     tabMaxLow := lam * tabMaxLow e; tabMinLow := lam * tabMinLow e |}.
+
+(** ** HIGH-temperature phase *)
+Section ThermoHigh.
+Variable lam : R.
+Hypothesis Hlam : 0 < lam.
+Variable e : env.
+Notation e' := (scale_env lam e).
+
+(** tie: the generated functions are instances of the template of Lib/EosTemplate.v *)
+Lemma pHighT_is_P e0 s T :
+  pHighT e0 s T = P (TMinHighT s) (TMaxHighT s) (fHigh e0) (muMinHighT s) (aMinHighT s)
+                       (epsilonMinHighT s) (muMaxHighT s) (aMaxHighT s) (epsilonMaxHighT s) T.
+Proof. unfold pHighT, P. repeat (match goal with |- context [Rlt_dec ?x ?y] => destruct (Rlt_dec x y) end); ring. Qed.
+Lemma dpHighT_is_DP e0 s T :
+  dpHighT e0 s T = DP (TMinHighT s) (TMaxHighT s) (dfHigh e0) (muMinHighT s) (aMinHighT s)
+                          (muMaxHighT s) (aMaxHighT s) T.
+Proof. unfold dpHighT, DP. repeat (match goal with |- context [Rlt_dec ?x ?y] => destruct (Rlt_dec x y) end); ring. Qed.
+Lemma ddpHighT_is_DDP e0 s T :
+  ddpHighT e0 s T = DDP (TMinHighT s) (TMaxHighT s) (ddfHigh e0) (muMinHighT s) (aMinHighT s)
+                             (muMaxHighT s) (aMaxHighT s) T.
+Proof. unfold ddpHighT, DDP. repeat (match goal with |- context [Rlt_dec ?x ?y] => destruct (Rlt_dec x y) end); ring. Qed.
+Lemma deHighT_is_DE e0 s T :
+  deHighT e0 s T = DE (TMinHighT s) (TMaxHighT s) (ddfHigh e0) (muMinHighT s) (aMinHighT s)
+                           (muMaxHighT s) (aMaxHighT s) T.
+Proof. unfold deHighT, DE. rewrite ddpHighT_is_DDP. reflexivity. Qed.
+Lemma csqHighT_is_CSQ e0 s T :
+  csqHighT e0 s T = CSQ (TMinHighT s) (TMaxHighT s) (dfHigh e0) (ddfHigh e0) (muMinHighT s)
+                                    (aMinHighT s) (muMaxHighT s) (aMaxHighT s) T.
+Proof.
+  unfold csqHighT, CSQ. rewrite !dpHighT_is_DP, !deHighT_is_DE.
+  repeat (match goal with |- context [Rlt_dec ?x ?y] => destruct (Rlt_dec x y) end); reflexivity.
+Qed.
+
+(** two states describing the same extrapolated equation of state in the two unit systems *)
+Definition scaled_High (s s' : st) : Prop :=
+  TMinHighT s' = lam * TMinHighT s /\ TMaxHighT s' = lam * TMaxHighT s /\
+  muMinHighT s' = muMinHighT s /\ muMaxHighT s' = muMaxHighT s /\
+  aMinHighT s' = Rpower lam (4 - muMinHighT s) * aMinHighT s /\
+  aMaxHighT s' = Rpower lam (4 - muMaxHighT s) * aMaxHighT s /\
+  epsilonMinHighT s' = lam ^ 4 * epsilonMinHighT s /\
+  epsilonMaxHighT s' = lam ^ 4 * epsilonMaxHighT s.
+
+Ltac use_scaled H :=
+  destruct H as [E1 [E2 [E3 [E4 [E5 [E6 [E7 E8]]]]]]];
+  rewrite ?pHighT_is_P, ?dpHighT_is_DP, ?ddpHighT_is_DDP, ?deHighT_is_DE, ?csqHighT_is_CSQ;
+  rewrite ?E1, ?E2, ?E3, ?E4, ?E5, ?E6, ?E7, ?E8;
+  cbn [fHigh dfHigh ddfHigh scale_env].
+
+(** p ~ lam^4, dp/dT ~ lam^3, d2p/dT2 ~ lam^2, e ~ lam^4, w ~ lam^4, de/dT ~ lam^3 *)
+Lemma functions_scale_High s s' T : 0 < T -> scaled_High s s' ->
+  pHighT e' s' (lam * T) = lam ^ 4 * pHighT e s T /\
+  dpHighT e' s' (lam * T) = lam ^ 3 * dpHighT e s T /\
+  ddpHighT e' s' (lam * T) = lam ^ 2 * ddpHighT e s T /\
+  eHighT e' s' (lam * T) = lam ^ 4 * eHighT e s T /\
+  wHighT e' s' (lam * T) = lam ^ 4 * wHighT e s T /\
+  deHighT e' s' (lam * T) = lam ^ 3 * deHighT e s T.
+Proof.
+  intros HT H.
+  assert (Hp : pHighT e' s' (lam * T) = lam ^ 4 * pHighT e s T).
+  { use_scaled H. apply (P_scale lam Hlam). exact HT. }
+  assert (Hdp : dpHighT e' s' (lam * T) = lam ^ 3 * dpHighT e s T).
+  { use_scaled H. apply (DP_scale lam Hlam). exact HT. }
+  assert (Hddp : ddpHighT e' s' (lam * T) = lam ^ 2 * ddpHighT e s T).
+  { use_scaled H. apply (DDP_scale lam Hlam). exact HT. }
+  repeat split; try assumption.
+  - unfold eHighT. rewrite Hp, Hdp. ring.
+  - unfold wHighT. rewrite Hdp. ring.
+  - unfold deHighT. rewrite Hddp. ring.
+Qed.
+
+(** the sound speed is dimensionless *)
+Lemma csq_invariant_High s s' T : 0 < T -> 0 < TMinHighT s -> 0 < TMaxHighT s ->
+  scaled_High s s' -> csqHighT e' s' (lam * T) = csqHighT e s T.
+Proof.
+  intros HT Ha Hb H. use_scaled H. apply (CSQ_scale lam Hlam); assumption.
+Qed.
+
+(** *** setExtrapolate computes covariant coefficients *)
+Notation a := (tabMinHigh e).
+Notation b := (tabMaxHigh e).
+
+Lemma High_in e0 s T : TMinHighT s = tabMinHigh e0 -> TMaxHighT s = tabMaxHigh e0 ->
+  tabMinHigh e0 <= T <= tabMaxHigh e0 ->
+  pHighT e0 s T = - (fHigh e0) T /\ dpHighT e0 s T = - (dfHigh e0) T /\
+  ddpHighT e0 s T = - (ddfHigh e0) T /\
+  csqHighT e0 s T = (- (dfHigh e0) T) / (T * - (ddfHigh e0) T).
+Proof.
+  intros E1 E2 [H1 H2].
+  assert (p : pHighT e0 s T = - (fHigh e0) T).
+  { unfold pHighT. rewrite E1, E2. destruct (Rlt_dec T (tabMinHigh e0)); [lra|]. destruct (Rlt_dec (tabMaxHigh e0) T); [lra|ring]. }
+  assert (dp : dpHighT e0 s T = - (dfHigh e0) T).
+  { unfold dpHighT. rewrite E1, E2. destruct (Rlt_dec T (tabMinHigh e0)); [lra|]. destruct (Rlt_dec (tabMaxHigh e0) T); [lra|ring]. }
+  assert (ddp : ddpHighT e0 s T = - (ddfHigh e0) T).
+  { unfold ddpHighT. rewrite E1, E2. destruct (Rlt_dec T (tabMinHigh e0)); [lra|]. destruct (Rlt_dec (tabMaxHigh e0) T); [lra|ring]. }
+  repeat split; try assumption.
+  unfold csqHighT. rewrite E1, E2. destruct (Rlt_dec T (tabMinHigh e0)); [lra|]. destruct (Rlt_dec (tabMaxHigh e0) T); [lra|].
+  unfold deHighT. rewrite dp, ddp. reflexivity.
+Qed.
+
+Section SE.
+Variable e0 : env.
+Variable s0 : st.
+Hypothesis Hab0 : tabMinHigh e0 < tabMaxHigh e0.
+Let S := setExtrapolate e0 s0.
+Ltac side_High := first [lra | unfold S, setExtrapolate; autorewrite with setExtrapolate_db; reflexivity].
+
+Lemma S_range_High : TMinHighT S = tabMinHigh e0 /\ TMaxHighT S = tabMaxHigh e0.
+Proof. split; side_High. Qed.
+Lemma in_csq_High s T : TMinHighT s = tabMinHigh e0 -> TMaxHighT s = tabMaxHigh e0 -> tabMinHigh e0 <= T <= tabMaxHigh e0 ->
+  csqHighT e0 s T = (- (dfHigh e0) T) / (T * - (ddfHigh e0) T).
+Proof. intros E1 E2 HT. apply (High_in e0 s T E1 E2 HT). Qed.
+Lemma in_dp_High s T : TMinHighT s = tabMinHigh e0 -> TMaxHighT s = tabMaxHigh e0 -> tabMinHigh e0 <= T <= tabMaxHigh e0 ->
+  dpHighT e0 s T = - (dfHigh e0) T.
+Proof. intros E1 E2 HT. apply (High_in e0 s T E1 E2 HT). Qed.
+Lemma in_p_High s T : TMinHighT s = tabMinHigh e0 -> TMaxHighT s = tabMaxHigh e0 -> tabMinHigh e0 <= T <= tabMaxHigh e0 ->
+  pHighT e0 s T = - (fHigh e0) T.
+Proof. intros E1 E2 HT. apply (High_in e0 s T E1 E2 HT). Qed.
+
+Lemma matched_lo_High : matched (fHigh e0) (dfHigh e0) (ddfHigh e0) (tabMinHigh e0) (muMinHighT S) (aMinHighT S) (epsilonMinHighT S).
+Proof.
+  unfold matched, S, setExtrapolate. autorewrite with setExtrapolate_db. unfold wHighT.
+  repeat rewrite in_csq_High by side_High. repeat rewrite in_dp_High by side_High.
+  repeat rewrite in_p_High by side_High.
+  repeat split; reflexivity.
+Qed.
+Lemma matched_hi_High : matched (fHigh e0) (dfHigh e0) (ddfHigh e0) (tabMaxHigh e0) (muMaxHighT S) (aMaxHighT S) (epsilonMaxHighT S).
+Proof.
+  unfold matched, S, setExtrapolate. autorewrite with setExtrapolate_db. unfold wHighT.
+  repeat rewrite in_csq_High by side_High. repeat rewrite in_dp_High by side_High.
+  repeat rewrite in_p_High by side_High.
+  repeat split; reflexivity.
+Qed.
+End SE.
+
+Hypothesis Hab : a < b.
+Hypothesis Ha : 0 < a.
+
+(** whatever the states before the two calls *)
+Lemma setExtrapolate_covariant_High s0 s0' :
+  scaled_High (setExtrapolate e s0) (setExtrapolate e' s0').
+Proof.
+  assert (Hab' : tabMinHigh e' < tabMaxHigh e') by (cbn [tabMinHigh tabMaxHigh scale_env]; nra).
+  destruct (S_range_High e s0) as [Ra Rb]. destruct (S_range_High e' s0') as [Ra' Rb'].
+  pose proof (matched_lo_High e s0 Hab) as ML. pose proof (matched_hi_High e s0 Hab) as MH.
+  pose proof (matched_lo_High e' s0' Hab') as ML'. pose proof (matched_hi_High e' s0' Hab') as MH'.
+  apply (matched_scale lam) in ML; [|exact Hlam|exact Ha].
+  apply (matched_scale lam) in MH; [|exact Hlam|lra].
+  cbn [tabMinHigh tabMaxHigh fHigh dfHigh ddfHigh scale_env] in ML', MH', Ra', Rb'.
+  destruct (matched_unique _ _ _ _ _ _ _ _ _ _ ML ML') as [U1 [U2 U3]].
+  destruct (matched_unique _ _ _ _ _ _ _ _ _ _ MH MH') as [V1 [V2 V3]].
+  unfold scaled_High. rewrite Ra, Rb, Ra', Rb'. unfold scA in U2, V2.
+  repeat split; assumption.
+Qed.
+End ThermoHigh.
+
+(** ** LOW-temperature phase *)
+Section ThermoLow.
+Variable lam : R.
+Hypothesis Hlam : 0 < lam.
+Variable e : env.
+Notation e' := (scale_env lam e).
+
+(** tie: the generated functions are instances of the template of Lib/EosTemplate.v *)
+Lemma pLowT_is_P e0 s T :
+  pLowT e0 s T = P (TMinLowT s) (TMaxLowT s) (fLow e0) (muMinLowT s) (aMinLowT s)
+                       (epsilonMinLowT s) (muMaxLowT s) (aMaxLowT s) (epsilonMaxLowT s) T.
+Proof. unfold pLowT, P. repeat (match goal with |- context [Rlt_dec ?x ?y] => destruct (Rlt_dec x y) end); ring. Qed.
+Lemma dpLowT_is_DP e0 s T :
+  dpLowT e0 s T = DP (TMinLowT s) (TMaxLowT s) (dfLow e0) (muMinLowT s) (aMinLowT s)
+                          (muMaxLowT s) (aMaxLowT s) T.
+Proof. unfold dpLowT, DP. repeat (match goal with |- context [Rlt_dec ?x ?y] => destruct (Rlt_dec x y) end); ring. Qed.
+Lemma ddpLowT_is_DDP e0 s T :
+  ddpLowT e0 s T = DDP (TMinLowT s) (TMaxLowT s) (ddfLow e0) (muMinLowT s) (aMinLowT s)
+                             (muMaxLowT s) (aMaxLowT s) T.
+Proof. unfold ddpLowT, DDP. repeat (match goal with |- context [Rlt_dec ?x ?y] => destruct (Rlt_dec x y) end); ring. Qed.
+Lemma deLowT_is_DE e0 s T :
+  deLowT e0 s T = DE (TMinLowT s) (TMaxLowT s) (ddfLow e0) (muMinLowT s) (aMinLowT s)
+                           (muMaxLowT s) (aMaxLowT s) T.
+Proof. unfold deLowT, DE. rewrite ddpLowT_is_DDP. reflexivity. Qed.
+Lemma csqLowT_is_CSQ e0 s T :
+  csqLowT e0 s T = CSQ (TMinLowT s) (TMaxLowT s) (dfLow e0) (ddfLow e0) (muMinLowT s)
+                                    (aMinLowT s) (muMaxLowT s) (aMaxLowT s) T.
+Proof.
+  unfold csqLowT, CSQ. rewrite !dpLowT_is_DP, !deLowT_is_DE.
+  repeat (match goal with |- context [Rlt_dec ?x ?y] => destruct (Rlt_dec x y) end); reflexivity.
+Qed.
+
+(** two states describing the same extrapolated equation of state in the two unit systems *)
+Definition scaled_Low (s s' : st) : Prop :=
+  TMinLowT s' = lam * TMinLowT s /\ TMaxLowT s' = lam * TMaxLowT s /\
+  muMinLowT s' = muMinLowT s /\ muMaxLowT s' = muMaxLowT s /\
+  aMinLowT s' = Rpower lam (4 - muMinLowT s) * aMinLowT s /\
+  aMaxLowT s' = Rpower lam (4 - muMaxLowT s) * aMaxLowT s /\
+  epsilonMinLowT s' = lam ^ 4 * epsilonMinLowT s /\
+  epsilonMaxLowT s' = lam ^ 4 * epsilonMaxLowT s.
+
+Ltac use_scaled H :=
+  destruct H as [E1 [E2 [E3 [E4 [E5 [E6 [E7 E8]]]]]]];
+  rewrite ?pLowT_is_P, ?dpLowT_is_DP, ?ddpLowT_is_DDP, ?deLowT_is_DE, ?csqLowT_is_CSQ;
+  rewrite ?E1, ?E2, ?E3, ?E4, ?E5, ?E6, ?E7, ?E8;
+  cbn [fLow dfLow ddfLow scale_env].
+
+(** p ~ lam^4, dp/dT ~ lam^3, d2p/dT2 ~ lam^2, e ~ lam^4, w ~ lam^4, de/dT ~ lam^3 *)
+Lemma functions_scale_Low s s' T : 0 < T -> scaled_Low s s' ->
+  pLowT e' s' (lam * T) = lam ^ 4 * pLowT e s T /\
+  dpLowT e' s' (lam * T) = lam ^ 3 * dpLowT e s T /\
+  ddpLowT e' s' (lam * T) = lam ^ 2 * ddpLowT e s T /\
+  eLowT e' s' (lam * T) = lam ^ 4 * eLowT e s T /\
+  wLowT e' s' (lam * T) = lam ^ 4 * wLowT e s T /\
+  deLowT e' s' (lam * T) = lam ^ 3 * deLowT e s T.
+Proof.
+  intros HT H.
+  assert (Hp : pLowT e' s' (lam * T) = lam ^ 4 * pLowT e s T).
+  { use_scaled H. apply (P_scale lam Hlam). exact HT. }
+  assert (Hdp : dpLowT e' s' (lam * T) = lam ^ 3 * dpLowT e s T).
+  { use_scaled H. apply (DP_scale lam Hlam). exact HT. }
+  assert (Hddp : ddpLowT e' s' (lam * T) = lam ^ 2 * ddpLowT e s T).
+  { use_scaled H. apply (DDP_scale lam Hlam). exact HT. }
+  repeat split; try assumption.
+  - unfold eLowT. rewrite Hp, Hdp. ring.
+  - unfold wLowT. rewrite Hdp. ring.
+  - unfold deLowT. rewrite Hddp. ring.
+Qed.
+
+(** the sound speed is dimensionless *)
+Lemma csq_invariant_Low s s' T : 0 < T -> 0 < TMinLowT s -> 0 < TMaxLowT s ->
+  scaled_Low s s' -> csqLowT e' s' (lam * T) = csqLowT e s T.
+Proof.
+  intros HT Ha Hb H. use_scaled H. apply (CSQ_scale lam Hlam); assumption.
+Qed.
+
+(** *** setExtrapolate computes covariant coefficients *)
+Notation a := (tabMinLow e).
+Notation b := (tabMaxLow e).
+
+Lemma Low_in e0 s T : TMinLowT s = tabMinLow e0 -> TMaxLowT s = tabMaxLow e0 ->
+  tabMinLow e0 <= T <= tabMaxLow e0 ->
+  pLowT e0 s T = - (fLow e0) T /\ dpLowT e0 s T = - (dfLow e0) T /\
+  ddpLowT e0 s T = - (ddfLow e0) T /\
+  csqLowT e0 s T = (- (dfLow e0) T) / (T * - (ddfLow e0) T).
+Proof.
+  intros E1 E2 [H1 H2].
+  assert (p : pLowT e0 s T = - (fLow e0) T).
+  { unfold pLowT. rewrite E1, E2. destruct (Rlt_dec T (tabMinLow e0)); [lra|]. destruct (Rlt_dec (tabMaxLow e0) T); [lra|ring]. }
+  assert (dp : dpLowT e0 s T = - (dfLow e0) T).
+  { unfold dpLowT. rewrite E1, E2. destruct (Rlt_dec T (tabMinLow e0)); [lra|]. destruct (Rlt_dec (tabMaxLow e0) T); [lra|ring]. }
+  assert (ddp : ddpLowT e0 s T = - (ddfLow e0) T).
+  { unfold ddpLowT. rewrite E1, E2. destruct (Rlt_dec T (tabMinLow e0)); [lra|]. destruct (Rlt_dec (tabMaxLow e0) T); [lra|ring]. }
+  repeat split; try assumption.
+  unfold csqLowT. rewrite E1, E2. destruct (Rlt_dec T (tabMinLow e0)); [lra|]. destruct (Rlt_dec (tabMaxLow e0) T); [lra|].
+  unfold deLowT. rewrite dp, ddp. reflexivity.
+Qed.
+
+Section SE.
+Variable e0 : env.
+Variable s0 : st.
+Hypothesis Hab0 : tabMinLow e0 < tabMaxLow e0.
+Let S := setExtrapolate e0 s0.
+Ltac side_Low := first [lra | unfold S, setExtrapolate; autorewrite with setExtrapolate_db; reflexivity].
+
+Lemma S_range_Low : TMinLowT S = tabMinLow e0 /\ TMaxLowT S = tabMaxLow e0.
+Proof. split; side_Low. Qed.
+Lemma in_csq_Low s T : TMinLowT s = tabMinLow e0 -> TMaxLowT s = tabMaxLow e0 -> tabMinLow e0 <= T <= tabMaxLow e0 ->
+  csqLowT e0 s T = (- (dfLow e0) T) / (T * - (ddfLow e0) T).
+Proof. intros E1 E2 HT. apply (Low_in e0 s T E1 E2 HT). Qed.
+Lemma in_dp_Low s T : TMinLowT s = tabMinLow e0 -> TMaxLowT s = tabMaxLow e0 -> tabMinLow e0 <= T <= tabMaxLow e0 ->
+  dpLowT e0 s T = - (dfLow e0) T.
+Proof. intros E1 E2 HT. apply (Low_in e0 s T E1 E2 HT). Qed.
+Lemma in_p_Low s T : TMinLowT s = tabMinLow e0 -> TMaxLowT s = tabMaxLow e0 -> tabMinLow e0 <= T <= tabMaxLow e0 ->
+  pLowT e0 s T = - (fLow e0) T.
+Proof. intros E1 E2 HT. apply (Low_in e0 s T E1 E2 HT). Qed.
+
+Lemma matched_lo_Low : matched (fLow e0) (dfLow e0) (ddfLow e0) (tabMinLow e0) (muMinLowT S) (aMinLowT S) (epsilonMinLowT S).
+Proof.
+  unfold matched, S, setExtrapolate. autorewrite with setExtrapolate_db. unfold wLowT.
+  repeat rewrite in_csq_Low by side_Low. repeat rewrite in_dp_Low by side_Low.
+  repeat rewrite in_p_Low by side_Low.
+  repeat split; reflexivity.
+Qed.
+Lemma matched_hi_Low : matched (fLow e0) (dfLow e0) (ddfLow e0) (tabMaxLow e0) (muMaxLowT S) (aMaxLowT S) (epsilonMaxLowT S).
+Proof.
+  unfold matched, S, setExtrapolate. autorewrite with setExtrapolate_db. unfold wLowT.
+  repeat rewrite in_csq_Low by side_Low. repeat rewrite in_dp_Low by side_Low.
+  repeat rewrite in_p_Low by side_Low.
+  repeat split; reflexivity.
+Qed.
+End SE.
+
+Hypothesis Hab : a < b.
+Hypothesis Ha : 0 < a.
+
+(** whatever the states before the two calls *)
+Lemma setExtrapolate_covariant_Low s0 s0' :
+  scaled_Low (setExtrapolate e s0) (setExtrapolate e' s0').
+Proof.
+  assert (Hab' : tabMinLow e' < tabMaxLow e') by (cbn [tabMinLow tabMaxLow scale_env]; nra).
+  destruct (S_range_Low e s0) as [Ra Rb]. destruct (S_range_Low e' s0') as [Ra' Rb'].
+  pose proof (matched_lo_Low e s0 Hab) as ML. pose proof (matched_hi_Low e s0 Hab) as MH.
+  pose proof (matched_lo_Low e' s0' Hab') as ML'. pose proof (matched_hi_Low e' s0' Hab') as MH'.
+  apply (matched_scale lam) in ML; [|exact Hlam|exact Ha].
+  apply (matched_scale lam) in MH; [|exact Hlam|lra].
+  cbn [tabMinLow tabMaxLow fLow dfLow ddfLow scale_env] in ML', MH', Ra', Rb'.
+  destruct (matched_unique _ _ _ _ _ _ _ _ _ _ ML ML') as [U1 [U2 U3]].
+  destruct (matched_unique _ _ _ _ _ _ _ _ _ _ MH MH') as [V1 [V2 V3]].
+  unfold scaled_Low. rewrite Ra, Rb, Ra', Rb'. unfold scA in U2, V2.
+  repeat split; assumption.
+Qed.
+End ThermoLow.
+
+(** ** transition strength alpha(T): dimensionless *)
+Lemma alpha_invariant lam e s s' T : 0 < lam -> 0 < T ->
+  0 < TMinLowT s -> 0 < TMaxLowT s ->
+  scaled_High lam s s' -> scaled_Low lam s s' ->
+  alpha (scale_env lam e) s' (lam * T) = alpha e s T.
+Proof.
+  intros Hl HT Ha Hb HH HL.
+  destruct (functions_scale_High lam Hl e s s' T HT HH) as [pH [_ [_ [eH [wH _]]]]].
+  destruct (functions_scale_Low lam Hl e s s' T HT HL) as [pL [_ [_ [eL _]]]].
+  pose proof (csq_invariant_Low lam Hl e s s' T HT Ha Hb HL) as cL.
+  unfold alpha. rewrite pH, pL, eH, eL, wH, cL.
+  assert (H4 : lam ^ 4 <> 0) by (apply Rgt_not_eq, pow_lt; exact Hl).
+  set (c := csqLowT e s T). set (w := wHighT e s T).
+  replace ((lam ^ 4 * eHighT e s T - lam ^ 4 * eLowT e s T -
+            (lam ^ 4 * pHighT e s T - lam ^ 4 * pLowT e s T) / c) / 3)
+    with (lam ^ 4 * ((eHighT e s T - eLowT e s T - (pHighT e s T - pLowT e s T) / c) / 3))
+    by (unfold Rdiv; ring).
+  apply div_scale. exact H4.
+Qed.
+
+(** after setExtrapolate in both unit systems every EOS function is covariant *)
+Lemma thermodynamics_covariant lam e s0 s0' T :
+  0 < lam -> 0 < T ->
+  0 < tabMinHigh e < tabMaxHigh e -> 0 < tabMinLow e < tabMaxLow e ->
+  let S := setExtrapolate e s0 in
+  let e' := scale_env lam e in
+  let S' := setExtrapolate e' s0' in
+  pHighT e' S' (lam * T) = lam ^ 4 * pHighT e S T /\
+  dpHighT e' S' (lam * T) = lam ^ 3 * dpHighT e S T /\
+  ddpHighT e' S' (lam * T) = lam ^ 2 * ddpHighT e S T /\
+  eHighT e' S' (lam * T) = lam ^ 4 * eHighT e S T /\
+  wHighT e' S' (lam * T) = lam ^ 4 * wHighT e S T /\
+  csqHighT e' S' (lam * T) = csqHighT e S T /\
+  pLowT e' S' (lam * T) = lam ^ 4 * pLowT e S T /\
+  dpLowT e' S' (lam * T) = lam ^ 3 * dpLowT e S T /\
+  ddpLowT e' S' (lam * T) = lam ^ 2 * ddpLowT e S T /\
+  eLowT e' S' (lam * T) = lam ^ 4 * eLowT e S T /\
+  wLowT e' S' (lam * T) = lam ^ 4 * wLowT e S T /\
+  csqLowT e' S' (lam * T) = csqLowT e S T /\
+  alpha e' S' (lam * T) = alpha e S T.
+Proof.
+  intros Hl HT [HaH HabH] [HaL HabL] S e' S'.
+  pose proof (setExtrapolate_covariant_High lam Hl e HabH HaH s0 s0') as CH.
+  pose proof (setExtrapolate_covariant_Low lam Hl e HabL HaL s0 s0') as CL.
+  fold S e' S' in CH, CL.
+  destruct (S_range_High e s0) as [RaH RbH]. destruct (S_range_Low e s0) as [RaL RbL].
+  fold S in RaH, RbH, RaL, RbL.
+  destruct (functions_scale_High lam Hl e S S' T HT CH) as [A1 [A2 [A3 [A4 [A5 _]]]]].
+  destruct (functions_scale_Low lam Hl e S S' T HT CL) as [B1 [B2 [B3 [B4 [B5 _]]]]].
+  assert (A6 : csqHighT e' S' (lam * T) = csqHighT e S T).
+  { apply csq_invariant_High; try assumption; rewrite ?RaH, ?RbH; lra. }
+  assert (B6 : csqLowT e' S' (lam * T) = csqLowT e S T).
+  { apply csq_invariant_Low; try assumption; rewrite ?RaL, ?RbL; lra. }
+  repeat split; try assumption.
+  apply alpha_invariant; try assumption; rewrite ?RaL, ?RbL; lra.
+Qed.
+
+(* ==================================================================================== *)
+(** * Property theorems *)
+
+Theorem equation_of_state_covariant_High : forall lam e s s' T,
+  0 < lam -> 0 < T -> scaled_High lam s s' ->
+  pHighT (scale_env lam e) s' (lam * T) = lam ^ 4 * pHighT e s T /\
+  dpHighT (scale_env lam e) s' (lam * T) = lam ^ 3 * dpHighT e s T /\
+  ddpHighT (scale_env lam e) s' (lam * T) = lam ^ 2 * ddpHighT e s T /\
+  eHighT (scale_env lam e) s' (lam * T) = lam ^ 4 * eHighT e s T /\
+  wHighT (scale_env lam e) s' (lam * T) = lam ^ 4 * wHighT e s T /\
+  deHighT (scale_env lam e) s' (lam * T) = lam ^ 3 * deHighT e s T.
+Proof. intros lam e s s' T Hl HT H. exact (functions_scale_High lam Hl e s s' T HT H). Qed.
+Print Assumptions equation_of_state_covariant_High.
+
+Theorem equation_of_state_covariant_Low : forall lam e s s' T,
+  0 < lam -> 0 < T -> scaled_Low lam s s' ->
+  pLowT (scale_env lam e) s' (lam * T) = lam ^ 4 * pLowT e s T /\
+  dpLowT (scale_env lam e) s' (lam * T) = lam ^ 3 * dpLowT e s T /\
+  ddpLowT (scale_env lam e) s' (lam * T) = lam ^ 2 * ddpLowT e s T /\
+  eLowT (scale_env lam e) s' (lam * T) = lam ^ 4 * eLowT e s T /\
+  wLowT (scale_env lam e) s' (lam * T) = lam ^ 4 * wLowT e s T /\
+  deLowT (scale_env lam e) s' (lam * T) = lam ^ 3 * deLowT e s T.
+Proof. intros lam e s s' T Hl HT H. exact (functions_scale_Low lam Hl e s s' T HT H). Qed.
+Print Assumptions equation_of_state_covariant_Low.
+
+Theorem sound_speed_and_alpha_invariant : forall lam e s s' T,
+  0 < lam -> 0 < T ->
+  0 < TMinHighT s -> 0 < TMaxHighT s -> 0 < TMinLowT s -> 0 < TMaxLowT s ->
+  scaled_High lam s s' -> scaled_Low lam s s' ->
+  csqHighT (scale_env lam e) s' (lam * T) = csqHighT e s T /\
+  csqLowT (scale_env lam e) s' (lam * T) = csqLowT e s T /\
+  alpha (scale_env lam e) s' (lam * T) = alpha e s T.
+Proof.
+  intros lam e s s' T Hl HT H1 H2 H3 H4 HH HL. repeat split.
+  - apply csq_invariant_High; assumption.
+  - apply csq_invariant_Low; assumption.
+  - apply alpha_invariant; assumption.
+Qed.
+Print Assumptions sound_speed_and_alpha_invariant.
+
+(** mu invariant, a ~ lam^(4-mu), eps ~ lam^4, range ends ~ lam -- for ANY prior states *)
+Theorem setExtrapolate_covariant : forall lam e s0 s0',
+  0 < lam -> 0 < tabMinHigh e < tabMaxHigh e -> 0 < tabMinLow e < tabMaxLow e ->
+  scaled_High lam (setExtrapolate e s0) (setExtrapolate (scale_env lam e) s0') /\
+  scaled_Low lam (setExtrapolate e s0) (setExtrapolate (scale_env lam e) s0').
+Proof.
+  intros lam e s0 s0' Hl [H1 H2] [H3 H4]. split.
+  - apply setExtrapolate_covariant_High; assumption.
+  - apply setExtrapolate_covariant_Low; assumption.
+Qed.
+Print Assumptions setExtrapolate_covariant.
+
+Theorem thermodynamics_covariant_end_to_end : forall lam e s0 s0' T,
+  0 < lam -> 0 < T ->
+  0 < tabMinHigh e < tabMaxHigh e -> 0 < tabMinLow e < tabMaxLow e ->
+  let S := setExtrapolate e s0 in
+  let e' := scale_env lam e in
+  let S' := setExtrapolate e' s0' in
+  pHighT e' S' (lam * T) = lam ^ 4 * pHighT e S T /\
+  dpHighT e' S' (lam * T) = lam ^ 3 * dpHighT e S T /\
+  ddpHighT e' S' (lam * T) = lam ^ 2 * ddpHighT e S T /\
+  eHighT e' S' (lam * T) = lam ^ 4 * eHighT e S T /\
+  wHighT e' S' (lam * T) = lam ^ 4 * wHighT e S T /\
+  csqHighT e' S' (lam * T) = csqHighT e S T /\
+  pLowT e' S' (lam * T) = lam ^ 4 * pLowT e S T /\
+  dpLowT e' S' (lam * T) = lam ^ 3 * dpLowT e S T /\
+  ddpLowT e' S' (lam * T) = lam ^ 2 * ddpLowT e S T /\
+  eLowT e' S' (lam * T) = lam ^ 4 * eLowT e S T /\
+  wLowT e' S' (lam * T) = lam ^ 4 * wLowT e S T /\
+  csqLowT e' S' (lam * T) = csqLowT e S T /\
+  alpha e' S' (lam * T) = alpha e S T.
+Proof. exact thermodynamics_covariant. Qed.
+Print Assumptions thermodynamics_covariant_end_to_end.
+
+Theorem junction_velocities_invariant : forall lam e Tp Tm,
+  0 < lam -> th_eHighT e Tp <> th_eLowT e Tm ->
+  hy_vpvmAndvpovm (hy_scale lam e) (lam * Tp) (lam * Tm) = hy_vpvmAndvpovm e Tp Tm.
+Proof. exact vpvm_invariant. Qed.
+Print Assumptions junction_velocities_invariant.
+
+(** the sentinel (p+ - p-) * 1e50 returned when e+ = e- exactly is a pressure: tolerance
+    site "branch" in Hydrodynamics.vpvmAndvpovm *)
+Theorem junction_degenerate_branch_scales_like_pressure : forall lam e Tp Tm,
+  0 < lam -> th_eHighT e Tp = th_eLowT e Tm ->
+  fst (hy_vpvmAndvpovm (hy_scale lam e) (lam * Tp) (lam * Tm)) =
+  lam ^ 4 * fst (hy_vpvmAndvpovm e Tp Tm).
+Proof. exact vpvm_degenerate_branch_scales. Qed.
+Print Assumptions junction_degenerate_branch_scales_like_pressure.
+
+Theorem shock_equations_covariant : forall lam e v xi T b, 0 < lam ->
+  hy_shockDE_shock (hy_scale lam e) v (xi, lam * T) b =
+    (fst (hy_shockDE_shock e v (xi, T) b), lam * snd (hy_shockDE_shock e v (xi, T) b)) /\
+  hy_shockDE_rarefaction (hy_scale lam e) v (xi, lam * T) b =
+    (fst (hy_shockDE_rarefaction e v (xi, T) b),
+     lam * snd (hy_shockDE_rarefaction e v (xi, T) b)).
+Proof. exact shockDE_scaling. Qed.
+Print Assumptions shock_equations_covariant.
+
+Theorem temperature_window_map_covariant : forall lam e Tp Tm x y, 0 < lam ->
+  hy_mappingT (hy_scale lam e) (lam * Tp, lam * Tm) = hy_mappingT e (Tp, Tm) /\
+  hy_inverseMappingT (hy_scale lam e) (x, y) =
+  (lam * fst (hy_inverseMappingT e (x, y)), lam * snd (hy_inverseMappingT e (x, y))).
+Proof.
+  intros lam e Tp Tm x y Hl. split;
+    [apply mappingT_invariant | apply inverseMappingT_scales]; exact Hl.
+Qed.
+Print Assumptions temperature_window_map_covariant.
+
+Theorem wall_profile_covariant : forall lam e z vL vH w, 0 < lam ->
+  eom_wallProfile (eom_scale lam e) (z / lam) (lam * vL) (lam * vH) w =
+  (lam * fst (eom_wallProfile e z vL vH w), lam ^ 2 * snd (eom_wallProfile e z vL vH w)).
+Proof. exact wallProfile_scaling. Qed.
+Print Assumptions wall_profile_covariant.
+
+Theorem plasma_velocity_invariant : forall lam e phi T s1, 0 < lam ->
+  eom_plasmaVelocity (eom_scale lam e) (lam * phi) (lam * T) (lam ^ 4 * s1) =
+  eom_plasmaVelocity e phi T s1.
+Proof. exact plasmaVelocity_invariant. Qed.
+Print Assumptions plasma_velocity_invariant.
+
+Theorem temperature_profile_equation_covariant : forall lam e phi dphi T s1 s2, 0 < lam ->
+  eom_temperatureProfileEqLHS (eom_scale lam e) (lam * phi) (lam ^ 2 * dphi) (lam * T)
+                              (lam ^ 4 * s1) (lam ^ 4 * s2) =
+  lam ^ 4 * eom_temperatureProfileEqLHS e phi dphi T s1 s2.
+Proof. exact temperatureProfileEqLHS_scaling. Qed.
+Print Assumptions temperature_profile_equation_covariant.
+
+Theorem grid_parameters_covariant : forall lam e s s' tIn tOut L r sm c, 0 < lam ->
+  let G := gr_updateParameters e s tIn tOut L r sm c in
+  let G' := gr_updateParameters e s' (/ lam * tIn) (/ lam * tOut) (/ lam * L) r sm (/ lam * c) in
+  gr_aIn G' = gr_aIn G /\ gr_aOut G' = gr_aOut G /\
+  gr_tailLengthInside G' = / lam * gr_tailLengthInside G /\
+  gr_tailLengthOutside G' = / lam * gr_tailLengthOutside G /\
+  gr_wallThickness G' = / lam * gr_wallThickness G /\
+  gr_wallCenter G' = / lam * gr_wallCenter G /\
+  gr_ratioPointsWall G' = gr_ratioPointsWall G /\ gr_smoothing G' = gr_smoothing G.
+Proof. exact grid_parameters_scaling. Qed.
+Print Assumptions grid_parameters_covariant.
+
+(** non-vacuity: a table satisfying the hypotheses (ideal gas f = -T^4 on [1,2]), and a
+    pair of states related by [scaled_High] *)
+Example hypotheses_satisfiable :
+  let e := {| fHigh := fun T => - T ^ 4; fLow := fun T => - T ^ 4;
+              dfHigh := fun T => - 4 * T ^ 3; ddfHigh := fun T => - 12 * T ^ 2;
+              dfLow := fun T => - 4 * T ^ 3; ddfLow := fun T => - 12 * T ^ 2;
+              tabMaxHigh := 2; tabMinHigh := 1; tabMaxLow := 2; tabMinLow := 1 |} in
+  0 < tabMinHigh e < tabMaxHigh e /\ 0 < tabMinLow e < tabMaxLow e /\
+  forall s0, scaled_High 2 (setExtrapolate e s0) (setExtrapolate (scale_env 2 e) s0).
+Proof.
+  intro e.
+  assert (H1 : 0 < tabMinHigh e < tabMaxHigh e) by (unfold e; cbn [tabMinHigh tabMaxHigh]; lra).
+  assert (H2 : 0 < tabMinLow e < tabMaxLow e) by (unfold e; cbn [tabMinLow tabMaxLow]; lra).
+  split; [exact H1|]. split; [exact H2|].
+  intro s0. apply setExtrapolate_covariant_High; lra.
+Qed.
+
+(* ------------------------------------------------------------------------------------ *)
+(** * Absolute tolerances on dimensionful quantities *)
+
+(** An absolute test |x| < tol on a quantity of dimension d <> 0 changes its outcome under
+    some change of units, whatever the non-zero value x ... *)
+Theorem absolute_tolerance_is_not_covariant : forall (d : Z) tol x,
+  (d <> 0)%Z -> 0 < tol -> x <> 0 ->
+  exists lam, 0 < lam /\ abs_test tol (Rpower lam (IZR d) * x) <> abs_test tol x.
+Proof.
+  intros d tol x Hd Ht Hx. apply abs_tolerance_not_covariant; try assumption.
+  intro E. apply Hd. apply eq_IZR. exact E.
+Qed.
+Print Assumptions absolute_tolerance_is_not_covariant.
+
+(** ... while a tolerance multiplied by a scale of the same dimension is covariant *)
+Theorem relative_tolerance_is_covariant : forall k tol x s,
+  0 < k -> (Rabs (k * x) < tol * (k * s) <-> Rabs x < tol * s).
+Proof. exact rel_tolerance_covariant. Qed.
+Print Assumptions relative_tolerance_is_covariant.
+
+Import ListNotations.
+Local Open Scope string_scope.
+
+(** The REVIEWED list of places where a pure number meets a dimensionful quantity in
+    equationOfMotion.py, hydrodynamics.py, hydrodynamicsTemplateModel.py, thermodynamics.py,
+    freeEnergy.py, effectivePotential.py, manager.py (dimension analysis of tools/
+    gen_units.py; [s_dim] = mass dimension of the quantity).  Each is tolerated today
+    because it stays far inside the solver tolerances for unit factors 1e-2 .. 1e2 (measured
+    by the metamorphic runs of tools/props/C07.py):
+    - pressAbsErrTol = 1e-8: provisional absolute pressure tolerance for the two bracket
+      pressures of EOM.solveWall, replaced by a relative one before the root search;
+    - |Tnucl - Tplus| < 1e-10: decides "detonation" (Tplus is then Tnucl exactly);
+    - xtol=1e-10 / xtol=self.atol (1e-10): absolute x-tolerance of temperature roots, always
+      combined with a relative tolerance that dominates for T >> 1e-10;
+    - (p+ - p-) * 1e50: sentinel when e+ = e- exactly (see
+      junction_degenerate_branch_scales_like_pressure);
+    - minimize(tol=tol): scipy's gradient tolerance on Veff(phi) in findLocalMinimum;
+    - allclose(atol=1e-05): "are the two phases the same point" in validatePhaseInput. *)
+Definition reviewed_sites : list site := [
+  mk_site "equationOfMotion.py" "EOM.solveWall" "assign" "pressAbsErrTol = 1e-08" (Some 4%Z) 1;
+  mk_site "equationOfMotion.py" "EOM.findPlasmaProfilePoint" "cmp" "1e-10" (Some 1%Z) 1;
+  mk_site "equationOfMotion.py" "EOM.findPlasmaProfilePoint" "xtol" "root_scalar(xtol=1e-10)" (Some 1%Z) 1;
+  mk_site "hydrodynamics.py" "Hydrodynamics.findJouguetVelocity" "xtol" "root_scalar(xtol=self.atol)" (Some 1%Z) 2;
+  mk_site "hydrodynamics.py" "Hydrodynamics.vpvmAndvpovm" "branch" "(pHighT - pLowT) / (eHighT - eLowT)" (Some 4%Z) 1;
+  mk_site "hydrodynamics.py" "Hydrodynamics.matchDeton" "xtol" "root_scalar(xtol=self.atol)" (Some 1%Z) 1;
+  mk_site "hydrodynamics.py" "Hydrodynamics.solveHydroShock" "xtol" "root_scalar(xtol=self.atol)" (Some 1%Z) 2;
+  mk_site "hydrodynamics.py" "Hydrodynamics.strongestShock" "xtol" "root_scalar(xtol=self.atol)" (Some 1%Z) 1;
+  mk_site "effectivePotential.py" "EffectivePotential.findLocalMinimum" "xtol" "minimize(tol=tol)" (Some 1%Z) 1;
+  mk_site "manager.py" "WallGoManager.validatePhaseInput" "xtol" "allclose(atol=1e-05)" (Some 1%Z) 1
+].
+
+(** the sites found in the CURRENT sources are exactly the reviewed ones: a new absolute
+    tolerance on a dimensionful quantity, or a lost / added unit conversion (a bound, an
+    argument or a stored value whose dimension no longer matches), changes [sites] *)
+Theorem tolerance_sites_are_the_reviewed_ones : sites = reviewed_sites.
+Proof. vm_compute. reflexivity. Qed.
+Print Assumptions tolerance_sites_are_the_reviewed_ones.
+
+(** every reviewed site concerns a quantity of non-zero dimension, so by
+    [absolute_tolerance_is_not_covariant] none of them is covariant *)
+Theorem reviewed_sites_are_dimensionful :
+  Forall (fun s => match s_dim s with Some d => d <> 0%Z | None => False end) reviewed_sites.
+Proof. repeat constructor; discriminate. Qed.
+Print Assumptions reviewed_sites_are_dimensionful.
